@@ -49,6 +49,13 @@ def cases(tier, seed, prop):
                 if subset[1]: gc.setdefault(esy, {}).setdefault(field_, {})[key] = planted(kind, key, 'gsyntax')
                 if subset[2]: c.setdefault(field_, {})[key] = planted(kind, key, 'user')
             out.append({'c': c, 'gc': gc, 'probes': probes, 'subset': subset, 'g': 'layers'})
+            if ety == 'markup' and any(subset) and any(k == 'vr' for k, _ in probes):
+                # the most specific layer that defines a variable sets it to the empty string
+                c3 = copy.deepcopy(c); gc3 = copy.deepcopy(gc)
+                top = c3 if subset[2] else (gc3[esy] if subset[1] else gc3[ety])
+                for kind, key in probes:
+                    if kind == 'vr': top.setdefault('variables', {})[key] = ''
+                out.append({'c': c3, 'gc': gc3, 'probes': probes, 'subset': subset, 'g': 'layers-emptyvar', 'emptyvar': 1})
     return out
 
 
@@ -109,6 +116,9 @@ def run(case, prop):
                     if body not in o: viol.append('expand-layer| expand(%r, %r, %r) = %r does not use the effective snippet %r' % (key, c, gc, o, body))
             if kind == 'vr' and ty == 'markup':
                 val = got[case['probes'].index((kind, key))]
+                if isinstance(val, str) and val == '' and case.get('emptyvar'):
+                    o = expand('p[title=x${%s}y]' % key, copy.deepcopy(c), copy.deepcopy(gc))
+                    if 'title="xy"' not in o: viol.append('expand-variable| expand(p[title=x${%s}y], %r, %r) = %r: the effective value of the variable is the empty string' % (key, c, gc, o))
                 if isinstance(val, str) and val:
                     # the effective variable, referenced directly and from inside a snippet body, under a call config whose own
                     # `variables` dictionary exists but need not mention the key
